@@ -9,6 +9,7 @@ import Driver.Make
 import JaxVerif.Model.Config
 import JaxVerif.Model.Gensym
 import JaxVerif.Model.Struct
+import JaxVerif.Model.Sig
 
 open Lean JV
 
@@ -87,6 +88,32 @@ def cmdProg (j : Json) : Except String Json := do
   return Json.mkObj [("obs", jarr (obs.map obsJson)), ("depth", jnat st.stack.length),
     ("flatten", Json.bool st.flatten), ("tp", Json.bool st.tp.isSome), ("disable", Json.bool st.disable)]
 
+def kindOfString (s : String) : Except String PKind :=
+  match s with
+  | "posonly" => .ok .posOnly | "pos" => .ok .posOrKw | "varpos" => .ok .varPos
+  | "kwonly" => .ok .kwOnly | "varkw" => .ok .varKw
+  | _ => .error s!"bad parameter kind {s}"
+
+def pieceStr : Piece → String
+  | .param p => p.name
+  | .slash => "/"
+  | .star => "*"
+  | .starParam p => "*" ++ p.name
+  | .dstarParam p => "**" ++ p.name
+
+/-- the parameter list `_make_fn_with_signature` renders for a signature (+ the output parameter) -/
+def cmdRenderSig (j : Json) : Except String Json := do
+  let ps ← (← getArr j "params").mapM fun p => do
+    return ({ name := ← getStr p "name", kind := ← kindOfString (← getStr p "kind"), hasDefault := getBoolD p "default" false } : SParam)
+  let extra : List SParam := match getOpt j "output" with
+    | some (.str o) => [{ name := o, kind := .kwOnly, hasDefault := false }]
+    | _ => []
+  let pieces := renderSig ps extra
+  let parsed := parsePieces pieces
+  return Json.mkObj [("pieces", jarr (pieces.map fun x => jstr (pieceStr x))),
+    ("parsed", jarr (parsed.map fun p => jarr [jstr p.name, jstr (match p.kind with
+      | .posOnly => "posonly" | .posOrKw => "pos" | .varPos => "varpos" | .kwOnly => "kwonly" | .varKw => "varkw"), Json.bool p.hasDefault]))]
+
 def skippable (r : Except String Json) : Except String Json :=
   match r with
   | .error e => if e.startsWith "SKIP:" then .ok (Json.mkObj [("skip", jstr (e.drop 5).toString)]) else .error e
@@ -115,6 +142,7 @@ def dispatch1 (j : Json) : Except String Json := do
       match cfgUpdate item.toList cv c0 with
       | none => return jstr "VAL"
       | some c => return Json.mkObj [("disable", Json.bool c.disable), ("remove", Json.bool c.removeTypecheckerStack)]
+  | "rendersig" => cmdRenderSig j
   | "gensym" => do
       let fn ← getStr j "fn"
       let ps ← getStrList j "params"
